@@ -53,18 +53,17 @@ def expected(axis, atms):
     return ATM(axis_ids, inv_ids, rows, md, None, None)
 
 
-def h_concat(axis, k, md_cfg, via):
+def h_concat(axis, k, md_cfg, via, shape=(2, 2), sparse_others=False):
     b = B()
     inv = 'observation' if axis == 'sample' else 'sample'
-    first_inv = ids_for(2, inv)
     # first operand: arbitrary representation state 2x2
-    t0, a0 = make_table(2, 2, md='both' if md_cfg[0] else 'none', zeros=1, type_='OTU table')
+    t0, a0 = make_table(shape[0], shape[1], md='both' if md_cfg[0] else 'none', zeros=1 if shape == (2, 2) else 0, type_='OTU table')
     ops, atms = [t0], [a0]
     pats = inv_patterns(a0.ids(inv))
     names = [['c1', 'c2'], ['d-1']]
     for q in range(k - 1):
         pk = pick(sorted(pats), f'inv-pattern{q}')
-        t, a = operand(axis, names[q], pats[pk], 'wx'[q], md_cfg[q + 1] if q + 1 < len(md_cfg) else False)
+        t, a = operand(axis, names[q], pats[pk], 'wx'[q], md_cfg[q + 1] if q + 1 < len(md_cfg) else False, sparse=sparse_others)
         ops.append(t)
         atms.append(a)
     sig = dict(axis=axis, k=k, via=via)
@@ -142,6 +141,13 @@ def jobs(tier):
                 if tier != 'quick' or (via == 'method' and md_cfg in ((False, False, False), (True, False, True))):
                     out.append(('concat', (axis, 3, md_cfg, via)))
         out.append(('not_disjoint', (axis,)))
+        if tier != 'quick':
+            for shape in ((2, 3), (3, 2)):
+                for md_cfg in ((False, False, False), (True, True, True), (False, True, False)):
+                    out.append(('concat', (axis, 2, md_cfg, 'method', shape)))
+            for md_cfg in ((False, False, False), (True, False, True)):
+                out.append(('concat', (axis, 2, md_cfg, 'method', (2, 2), True)))
+                out.append(('concat', (axis, 3, md_cfg, 'wrapper', (2, 2), True)))
     return out
 
 
